@@ -325,6 +325,9 @@ type gor struct {
 	body  string
 	at    string
 	done  bool
+	// probe mode: released from the "lock" yield point while another request holds the lock
+	// and not seen again yet (it is blocked inside the real Lock call)
+	waiting bool
 }
 
 var schedMu sync.Mutex
@@ -386,16 +389,51 @@ func opSched(a map[string]interface{}) (string, string, interface{}) {
 	holder := -1
 	trace := []string{}
 	infeasible := ""
+	probe := aBool(a, "probe")
+	bypassed := []string{}
 	for _, i := range order {
+		if probe && i >= 0 && i < n && gs[i].done {
+			continue
+		}
 		if i < 0 || i >= n || gs[i].done {
 			infeasible = fmt.Sprintf("request %d cannot advance (finished or unknown)", i)
 			break
 		}
 		g := gs[i]
+		if g.waiting {
+			// blocked in the real lock: it can only move once the holder has finished
+			if holder >= 0 && holder != i {
+				trace = append(trace, fmt.Sprintf("%d:still-blocked", i))
+				continue
+			}
+			p := <-g.point
+			g.waiting = false
+			g.at = p
+			holder = i
+			trace = append(trace, fmt.Sprintf("%d:%s", i, g.at))
+			continue
+		}
 		if g.at == "lock" {
 			if holder >= 0 && holder != i {
-				infeasible = fmt.Sprintf("request %d waits for the lock held by %d", i, holder)
-				break
+				if !probe {
+					infeasible = fmt.Sprintf("request %d waits for the lock held by %d", i, holder)
+					break
+				}
+				// probe: does the real lock keep this request out while the holder is inside?
+				g.goon <- struct{}{}
+				select {
+				case p := <-g.point:
+					bypassed = append(bypassed, fmt.Sprintf("request %d passed the lock point and reached '%s' while request %d was between taking the lock and finishing", i, p, holder))
+					g.at = p
+					if p == "" {
+						g.done = true
+					}
+					trace = append(trace, fmt.Sprintf("%d:%s(bypassed)", i, g.at))
+				case <-time.After(400 * time.Millisecond):
+					g.waiting = true
+					trace = append(trace, fmt.Sprintf("%d:blocked", i))
+				}
+				continue
 			}
 			holder = i
 		}
@@ -422,6 +460,21 @@ func opSched(a map[string]interface{}) (string, string, interface{}) {
 		progressed := false
 		for i, g := range gs {
 			if g.done {
+				continue
+			}
+			if g.waiting {
+				if holder >= 0 && holder != i {
+					continue
+				}
+				p := <-g.point
+				g.waiting = false
+				g.at = p
+				holder = i
+				if p == "" {
+					g.done = true
+					holder = -1
+				}
+				progressed = true
 				continue
 			}
 			if g.at == "lock" && holder >= 0 && holder != i {
@@ -459,6 +512,9 @@ func opSched(a map[string]interface{}) (string, string, interface{}) {
 		res = append(res, e)
 	}
 	o := J{"res": res, "allSame": allSame, "trace": trace}
+	if len(bypassed) > 0 {
+		o["bypassed"] = strings.Join(bypassed, "; ")
+	}
 	if infeasible != "" {
 		o["infeasible"] = infeasible
 	}
